@@ -72,6 +72,13 @@ def judge_receive(acc, cls, name, tree, origin, nontrivial, codec):
     if back is None:
         acc.violation("%s:to-none" % cls.__name__, "%s.toProtocolTreeNode returned None" % cls.__name__, w)
         return
+    try:
+        d_again = treeeq.diff(treeeq.to_tuple(back), treeeq.to_tuple(ent.toProtocolTreeNode()))
+    except Exception as e:  # noqa
+        d_again = "second serialisation raised %r" % (e,)
+    if d_again:
+        acc.violation("%s:unstable" % cls.__name__, "serialising the same %s entity a second time gives something else: %s" % (cls.__name__, d_again), w)
+        return
     ta, pa = split_proto(tree)
     try:
         tb, pb = split_proto(treeeq.to_tuple(back))
